@@ -33,6 +33,9 @@ SCRIPTS = [
     # a str that cannot be encoded as UTF-8 (lone surrogate, e.g. from surrogateescape file reading): whatever parse() does with it,
     # it does the same on a fresh and on a reused parser
     'keep;\n# \udce9\nstop;\n',
+    # refused in the middle of hasflag's non-deterministic arguments (the parser rewinds its lexer there)
+    'require "imap4flags";\nif hasflag {',
+    '# first\nkeep;\n',
 ]
 FS_OPS = [
     ("add-plain", [("Subject", ":is", "x")], [("fileinto", "B")]),
@@ -300,7 +303,7 @@ def hist_task(t):
     return dict(n=n, states=len(states), violations=viols)
 
 
-REP_FAIL = [3, 4, 5, 6, 11]      # scripts refused at different points (open list, unknown command in a block, open test list, ...)
+REP_FAIL = [3, 4, 5, 6, 11, 17]      # scripts refused at different points (open list, unknown command in a block, open test list, ...)
 REP_PROBE = [0, 2, 5, 9, 10]
 
 
